@@ -8,8 +8,13 @@ import time
 VERIF = os.path.dirname(os.path.dirname(os.path.abspath(__file__)))
 REPO = os.environ.get('MMVERIF_REPO', '/repo')
 METH = os.path.join(REPO, 'matched_markets', 'methodology')
-EVIDENCE_DIR = os.path.join(VERIF, 'evidence')
-REPLAY_DIR = os.path.join(VERIF, 'replays')
+# self-tests against scratch copies (seeded changes, mutants) redirect their
+# evidence and replay files so that /verif/evidence only ever describes runs
+# against the real working tree
+EVIDENCE_DIR = os.environ.get('MMVERIF_EVIDENCE_DIR') or os.path.join(
+    VERIF, 'evidence')
+REPLAY_DIR = os.environ.get('MMVERIF_REPLAY_DIR') or os.path.join(
+    VERIF, 'replays')
 KNOWN_FINDINGS = os.path.join(VERIF, 'known_findings.json')
 
 EXIT_OK, EXIT_VIOLATION, EXIT_UNDECIDED, EXIT_ERROR = 0, 1, 2, 3
